@@ -56,7 +56,20 @@ func PropagateChangesFromUpstreamRepository(downstreamRepo, upstreamRepo *gitint
 			return err
 		}
 
-		if !currentPathTreeID.IsZero() && currentPathTreeID.Equal(upstreamTreeID.Bytes()) {
+		// What is propagated is the upstream path's subtree when the directive
+		// names one, the whole upstream tree otherwise
+		propagatedTreeID := upstreamTreeID
+		if upstreamPath := detail.GetUpstreamPath(); upstreamPath != "" {
+			upstreamPathTreeID, err := upstreamRepo.GetPathIDInTree(upstreamTreeID, upstreamPath)
+			switch {
+			case err == nil:
+				propagatedTreeID = upstreamPathTreeID
+			case !errors.Is(err, gitinterface.ErrTreeDoesNotHavePath):
+				return err
+			}
+		}
+
+		if !currentPathTreeID.IsZero() && currentPathTreeID.Equal(propagatedTreeID.Bytes()) {
 			// Nothing to do
 			continue
 		}
